@@ -202,9 +202,14 @@ def shards(tier):
 
 def run_shard(spec, ctx):
     logging.disable(logging.WARNING)  # generators warn about tiny slices etc.
+    strategy = G.codec_features(regular=True, max_size=16, max_depth_bits=16, max_dwt=2, max_dwt_ho=1, max_slices=3)
+    if ctx.shard_index % 4 == 3:
+        # large-slice stratum: one slice of 24x24 .. 48x48 samples (more than 255 bytes / 510 coefficients per slice:
+        # length fields and slice_size_scaler choices beyond their smallest values), half of them lossless
+        big = dict(regular=True, min_size=24, max_size=48, max_depth_bits=12, max_dwt=2, max_dwt_ho=1, max_slices=1)
+        strategy = st.one_of(G.codec_features(lossless=True, **big), G.codec_features(**big))
     with small_natural_pictures():
-        run_given(G.codec_features(regular=True, max_size=16, max_depth_bits=16, max_dwt=2, max_dwt_ho=1, max_slices=3),
-                  body, ctx, ctx.pick(3, 19))
+        run_given(strategy, body, ctx, ctx.pick(3, 19))
 
 
 def replay(data, col):
